@@ -441,6 +441,12 @@ class ArgumentParser:
             self._attach_values(argv + self.compiler.options),
             namespace,
         )
+        # argparse hands anything that does not look like an option to the
+        # catch-all positional: response files (@file) and options whose
+        # value contains a blank ("-iquotemy inc") must be reported too.
+        unrecognized += [
+            f for f in (args.file or []) if f.startswith(("-", "@"))
+        ]
         if unrecognized:
             log.warning(f"Unrecognized arguments: '{' '.join(unrecognized)}'")
 
